@@ -37,6 +37,8 @@ TypeOf(e, env, home) ==
       [] e.t = "param" -> TV(ParamTypes[e.n], "")
       [] e.t = "enum" -> IF e.n \in DOMAIN ConstTypes THEN TV(ConstTypes[e.n], "") ELSE TV(e.ns, "")
       [] e.t = "field" -> LET h == TypeOf(e.h, env, home) IN TV(AttrTypes[h.c][e.n], "")
+      \* an array element has the type of the array (of the variable it is an element of)
+      [] e.t = "index" -> TypeOf(e.h, env, home)
       [] e.t = "un" -> IF e.op \in {"not", "empty", "not_empty"} THEN TV("boolean", "")
                        ELSE IF e.op = "cardinality" THEN TV("integer", "")
                        ELSE TypeOf(e.e, env, home)
@@ -62,7 +64,7 @@ EE(e, env, home, asval) ==
       [] e.t = "un" -> <<EntL(asval, TypeOf(e, env, home).ty, e.op)>> \o EE(e.e, env, home, TRUE)
       [] e.t = "bool" -> <<EntL(asval, "boolean", IF e.v = "true" THEN "TRUE" ELSE "FALSE")>>
       [] e.t = "field" -> <<Ent(asval, TypeOf(e, env, home).ty)>> \o EE(e.h, env, home, TRUE)
-      [] e.t = "index" -> <<Ent(asval, "")>> \o EE(e.h, env, home, TRUE) \o EE(e.e, env, home, TRUE)
+      [] e.t = "index" -> <<Ent(asval, TypeOf(e, env, home).ty)>> \o EE(e.h, env, home, TRUE) \o EE(e.e, env, home, TRUE)
       [] e.t \in {"fcall", "icall"} -> <<Ent(asval, TypeOf(e, env, home).ty)>> \o EPs(e.ps, env, home)
       [] e.t = "ocall" -> <<Ent(asval, TypeOf(e, env, home).ty)>> \o EE(e.h, env, home, TRUE) \o EPs(e.ps, env, home)
       [] OTHER -> <<Ent(asval, TypeOf(e, env, home).ty)>>
@@ -70,6 +72,10 @@ EPs(ps, env, home) == IF ps = <<>> THEN <<>> ELSE EE(ps[1].e, env, home, TRUE) \
 
 \* the class a navigation chain ends in
 ChainEnd(ch) == ch[Len(ch)].k
+
+\* the variable an assignment declares when it is new: the target itself, or the array whose element the target is
+RECURSIVE RootOf(_)
+RootOf(e) == IF e.t = "index" THEN RootOf(e.h) ELSE e
 
 RECURSIVE ES(_, _, _), EB(_, _, _), EElifs(_, _, _)
 \* entries of a statement and the environment after it: [es, env]
@@ -84,7 +90,8 @@ ES(s, env, home) ==
     LET own == <<Ent(FALSE, "")>> IN
     CASE s.t = "assign" ->
             LET rt == TypeOf(s.e, env, home)
-                env2 == IF s.lhs.t = "var" /\ s.lhs.n \notin DOMAIN env THEN Bind(env, s.lhs.n, rt) ELSE env
+                root == RootOf(s.lhs)
+                env2 == IF root.t = "var" /\ root.n \notin DOMAIN env THEN Bind(env, root.n, rt) ELSE env
             IN [es |-> own \o EE(s.lhs, env2, home, TRUE) \o EE(s.e, env, home, TRUE), env |-> env2]
       \* the invocation of an invocation statement is a value as well (typed by what the callable returns)
       [] s.t = "call" -> [es |-> own \o EE(s.inv, env, home, TRUE), env |-> env]
@@ -161,8 +168,10 @@ VS(s, a, env, ctx) ==
         home == ctx[2]
         decl(n, tv) == IF n \in DOMAIN env THEN <<>> ELSE <<[n |-> n, ty |-> tv.ty, first |-> first]>>
     IN
-    CASE s.t = "assign" /\ s.lhs.t = "var" ->
-            LET tv == TypeOf(s.e, env, home) IN [vs |-> decl(s.lhs.n, tv), env |-> IF s.lhs.n \in DOMAIN env THEN env ELSE Bind(env, s.lhs.n, tv)]
+    CASE s.t = "assign" /\ RootOf(s.lhs).t = "var" ->
+            LET tv == TypeOf(s.e, env, home)
+                n == RootOf(s.lhs).n
+            IN [vs |-> decl(n, tv), env |-> IF n \in DOMAIN env THEN env ELSE Bind(env, n, tv)]
       [] s.t = "create" -> [vs |-> decl(s.v, TV(InstTyOf(s.k), s.k)), env |-> Bind(env, s.v, TV(InstTyOf(s.k), s.k))]
       [] s.t = "select_from" ->
             LET tv == TV(IF s.card = "many" THEN SetTyOf(s.k) ELSE InstTyOf(s.k), s.k) IN [vs |-> decl(s.v, tv), env |-> Bind(env, s.v, tv)]
@@ -196,6 +205,7 @@ PE(e) == CASE e.t = "paren" -> PE(e.e)
            [] e.t = "bin" -> PE(e.l) \o PE(e.r)
            [] e.t = "un" -> PE(e.e)
            [] e.t = "field" -> PE(e.h)
+           [] e.t = "index" -> PE(e.h) \o PE(e.e)
            [] e.t \in {"fcall", "icall", "ocall"} -> Chain(e.ps) \o PPs(e.ps)
            [] OTHER -> <<>>
 PBk(b) == IF b = <<>> THEN <<>> ELSE PS(b[1]) \o PBk(Tail(b))
